@@ -61,6 +61,18 @@ def apply_img_op(x, o: Dict[str, Any], variant: int = 0):
         return x.region_of_interest(o["start"], o["n"])
     if op == "pool":
         return x.avg_pool(o["k"], ceil_mode=bool(o["ceil"]))
+    if op == "conv":
+        # symmetric unit-sum kernels of half width r per grid axis (x, y, z); a sequence of 1-d kernels is given in TENSOR order (z, y, x),
+        # an n-d kernel tensor acts on the last dimensions, one 1-d kernel tensor on every axis
+        K1 = {0: None, 1: torch.tensor([0.25, 0.5, 0.25]), 2: torch.tensor([0.1, 0.2, 0.4, 0.2, 0.1])}
+        r = list(o["r"])
+        D_ = len(r)
+        pad_ = 0 if o["valid"] else (None, "zeros", None)[variant % 3]
+        if len(set(r)) == 1 and r[0] > 0 and variant % 3 == 1:
+            return x.conv(K1[r[0]], padding=pad_)
+        if variant % 3 == 2 and all(v > 0 for v in r[:2]) and all(v == 0 for v in r[2:]):
+            return x.conv(torch.einsum("i,j->ij", K1[r[1]], K1[r[0]]), padding=pad_)  # (Y, X) kernel
+        return x.conv([K1[v] for v in reversed(r)], padding=pad_)
     raise MachineryError(f"unknown op {op}")
 
 
@@ -145,7 +157,8 @@ def check_chain(ctx: Ctx, c: Dict[str, Any], variant: int = 0) -> None:
         for kk, hg in enumerate(hulls[it]):
             mw = sum(float(hulls[it][q].spacing().max()) for q in range(kk + 1, len(hulls[it])) if hist[q]["op"] in INTERP) if kk + 1 < len(hulls[it]) else 0.0
             later = hist[kk:]
-            mi = max([(o["k"] - 1) / 2.0 + (o["k"] if o.get("ceil") else 0) for o in later if o["op"] == "pool"] or [0.0]) if kk == len(hulls[it]) - 1 else 0.0
+            mi = max([(o["k"] - 1) / 2.0 + (o["k"] if o.get("ceil") else 0) for o in later if o["op"] == "pool"] +
+                     [float(max(o["r"])) for o in later if o["op"] == "conv" and not o["valid"]] or [0.0]) if kk == len(hulls[it]) - 1 else 0.0
             if kk < len(hulls[it]) - 1 and any(o["op"] == "pool" for o in hist[kk + 1:]):
                 mw += max(float(hh.spacing().max()) for hh in hulls[it][kk + 1:]) * 3
             m &= inside_hull(hg, w, margin_world=mw, margin_index=mi)
@@ -165,7 +178,9 @@ def check_chain(ctx: Ctx, c: Dict[str, Any], variant: int = 0) -> None:
                 y = sel()
                 want = {"narrow(0, 1, 1)": [1], "[1:2]": [1], "narrow(0, 0, 2)": [0, 1], "[[1, 0]]": [1, 0]}[form]
                 yg = list(y.grids())
-                if len(yg) != len(want) or y.shape[0] != len(want) or any(yg[i] != grids[j] or max_err(y.tensor()[i], data[j]) > 0 for i, j in enumerate(want)):
+                same_ = lambda p_, q_: p_.shape == q_.shape and bool(((p_ == q_) | (torch.isnan(p_) & torch.isnan(q_))).all())  # noqa: E731  (NaN-safe: resampling a
+                # one-sample axis under align_corners=True yields NaN - a degenerate hull, not judged by the ramp law either)
+                if len(yg) != len(want) or y.shape[0] != len(want) or any(yg[i] != grids[j] or not same_(y.tensor()[i], data[j]) for i, j in enumerate(want)):
                     ctx.violation(dict(**sig, attr="batch_select", form=form), f"{what}: {form} does not return image(s) {want} with their own grid(s)", c)
                     return
             except Exception as ex:
